@@ -409,7 +409,7 @@ package statefulset
 //@   profile defaulted ensures [C11] deletingnotouch: set.DeletionTimestamp != nil ==> gPodTouch == old(gPodTouch) && gWrites == old(gWrites)
 //@   profile defaulted ensures [C02] quiet: fin ==> gNact == 0 && gPodTouch == old(gPodTouch) && gWrites == old(gWrites)
 //@   profile defaulted ensures [C02] fixedstatus: fin && err == nil ==> statusp.Replicas == len(pods) && statusp.ReadyReplicas == len(pods)
-//@   profile defaulted ensures [C09] writesgrow: gWrites >= old(gWrites) && gPodTouch >= old(gPodTouch) && gCtlFails >= old(gCtlFails)
+//@   ensures writesgrow: gWrites >= old(gWrites) && gPodTouch >= old(gPodTouch) && gCtlFails >= old(gCtlFails)
 //@   profile defaulted ensures [C12] bounds: err == nil ==> 0 <= statusp.ReadyReplicas && statusp.ReadyReplicas <= statusp.Replicas && 0 <= statusp.CurrentReplicas && statusp.CurrentReplicas <= statusp.Replicas && 0 <= statusp.UpdatedReplicas && statusp.UpdatedReplicas <= statusp.Replicas
 //@   profile defaulted ensures [C12] generation: statusp != nil ==> statusp.ObservedGeneration == set.Generation && statusp.CurrentRevision == currentRevision.Name && statusp.UpdateRevision == updateRevision.Name
 //@   profile defaulted ensures [C12] census: err == nil && gNact == 0 ==> statusp.Replicas == len(pods) && statusp.ReadyReplicas == count(rdyI, 0, len(pods)) && statusp.CurrentReplicas == count(curI, 0, len(pods)) && statusp.UpdatedReplicas == count(updI, 0, len(pods))
@@ -824,7 +824,8 @@ package statefulset
 //@   loop 1 "range revisions"
 //@     invariant len(revisions) == len(old(revisions))
 //@     invariant forall j int :: {revisions[j]} 0 <= j && j < len(revisions) ==> revisions[j] != nil
-//@     invariant gWrites >= old(gWrites) && gRevAdopts >= old(gRevAdopts) && gApiFails == old(gApiFails)
+//@     invariant gWrites >= old(gWrites) && gRevAdopts >= old(gRevAdopts) && gApiFails >= old(gApiFails)
+//@     profile defaulted invariant [C09] nofailsofar: gApiFails == old(gApiFails)
 
 //@ interface StatefulSetControlInterface.ListRevisions
 //@   sameas defaultStatefulSetControl.ListRevisions
@@ -939,6 +940,7 @@ package statefulset
 //@   pure
 
 //@ func defaultStatefulSetControl.createControllerRevision
+//@   wraps   -- *collisionCount++ may wrap around after 2^31 collisions (no panic; the count only salts the name hash)
 //@   results created, err
 //@   requires ssc != nil && ssc.csAppsV1 != nil && parent != nil && revision != nil
 //@   modifies *collisionCount, gApiFails, gWrites, gRevCreates
